@@ -19,7 +19,11 @@ def mc_cfg(name, spec="Spec", inv=INVS, view="View", **kw):
     base = dict(NSlots=3, NOwned=1, MaxObj=8, MaxArcs=2, Lens=_set([0, 1]), Caps=_set([0, 1, 2]),
                 Threads=_set([0]), AllowShared="TRUE", MaxOps=0, FmtCaps=_set([0]), Bug='"none"')
     base.update(kw)
-    p = os.path.join(vlib.SPECS, SPEC, "gen_%s.cfg" % name)
+    # written to the work directory under a per-process name: concurrent runs of this check (bin/mutcheck in
+    # parallel, several seeds at once) must not overwrite each other's configuration files
+    d = os.path.join(vlib.WORKROOT, "C14", "cfg")
+    os.makedirs(d, exist_ok=True)
+    p = os.path.join(d, "gen_%s_%d.cfg" % (name, os.getpid()))
     with open(p, "w") as f:
         f.write("SPECIFICATION %s\nCONSTANTS\n" % spec)
         for k, v in base.items():
@@ -28,7 +32,7 @@ def mc_cfg(name, spec="Spec", inv=INVS, view="View", **kw):
         if view:
             f.write("VIEW %s\n" % view)
         f.write("CHECK_DEADLOCK FALSE\n")
-    return os.path.basename(p)
+    return p
 
 
 DOMS = {  # constants of the Sim spec per harness domain
